@@ -13,9 +13,9 @@ import (
 // FeatSet is one feature configuration of the generator.
 type FeatSet struct {
 	Label    string   `json:"label"`
-	Default  bool     `json:"default,omitempty"`  // ogen's defaults (FeatureOptions == nil)
-	Features []string `json:"features"`           // DisableAll + exactly these
-	Unknown  string   `json:"unknown,omitempty"`  // additionally enable a feature name that does not exist
+	Default  bool     `json:"default,omitempty"` // ogen's defaults (FeatureOptions == nil)
+	Features []string `json:"features"`          // DisableAll + exactly these
+	Unknown  string   `json:"unknown,omitempty"` // additionally enable a feature name that does not exist
 	viaMask  bool
 }
 
